@@ -49,6 +49,14 @@ theorem BusI.d2 (h : BusI B I D) {b nd i : Nat} (h1 : (busNodeInts B b).get nd =
     (busNodeIDs B b).get (nodeNidC D nd) = some nd :=
   (h.ids_get b _ nd).2 ⟨by rw [h1]; simp, rfl⟩
 
+/-- the bus of an attached interface exists -/
+theorem BusI.bus_exists (h : BusI B I D) {b nd i : Nat} (h1 : ifaceNode I i = some nd) (h2 : ifaceBus I i = some b) :
+    B.get b ≠ none := by
+  intro hn
+  have := h.i2 h1 h2
+  rw [busNodeInts_of_none hn] at this
+  cases this
+
 /-! bus static CAN-IDs -/
 theorem StaticI.s1 (h : StaticI B I M) {b c m : Nat} (h1 : (busStaticIDs B b).get c = some m) :
     msgStatic M m = some c ∧ ∃ i, msgSender M m = some i ∧ ifaceBus I i = some b := (h.static_get b c m).1 h1
